@@ -331,6 +331,43 @@ func TestC15Rapid(t *testing.T) {
 		if msg := checkC15Parse(m); msg != "" {
 			t.Fatalf("C15 violated (ParseAnnotations) on %v: %s", m, msg)
 		}
+		// values nobody's helper wrote: a list of qualified names, decorated the way hand-written or templated
+		// annotations are (blanks and line ends around the value or around a comma, stray commas)
+		if rapid.Bool().Draw(t, "decorated") {
+			var names []string
+			for i, n := 0, rapid.IntRange(1, 3).Draw(t, "decN"); i < n; i++ {
+				names = append(names, genQName.Draw(t, fmt.Sprintf("decName%d", i)))
+			}
+			ws := rapid.SampledFrom([]string{" ", "\t", "\n", "\r\n", "  "}).Draw(t, "decWs")
+			v := strings.Join(names, ",")
+			how := rapid.SampledFrom([]string{"leading", "trailing", "both", "after-comma", "before-comma", "trailing-comma", "leading-comma", "double-comma", "none"}).Draw(t, "decHow")
+			switch how {
+			case "leading":
+				v = ws + v
+			case "trailing":
+				v += ws
+			case "both":
+				v = ws + v + ws
+			case "after-comma":
+				v = strings.Join(names, ","+ws)
+			case "before-comma":
+				v = strings.Join(names, ws+",")
+			case "trailing-comma":
+				v += ","
+			case "leading-comma":
+				v = "," + v
+			case "double-comma":
+				v = strings.Join(names, ",,")
+			}
+			dm := map[string]string{cdiPrefix + "dec_1": v}
+			if rapid.Bool().Draw(t, "decWithGood") {
+				dm[cdiPrefix+"aaa_0"] = genQName.Draw(t, "decGood")
+			}
+			if msg := checkC15Parse(dm); msg != "" {
+				t.Fatalf("C15 violated (ParseAnnotations) on %q: %s", dm, msg)
+			}
+			rec.Label("decorated:" + how)
+		}
 		rec.Case(c.nontrivial(), canonJSON(c), func() any { return c }, c.labels()...)
 	})
 }
